@@ -1,6 +1,7 @@
 package variants
 
 import (
+	"reflect"
 	"time"
 
 	cconv "github.com/pip-services3-gox/pip-services3-commons-gox/convert"
@@ -430,7 +431,33 @@ func (c *Variant) Equals(obj *Variant) bool {
 	if value1 == nil || value2 == nil {
 		return value1 == value2
 	}
-	return c.typ == obj.typ && value1 == value2
+	if c.typ != obj.typ {
+		return false
+	}
+	// Arrays are compared element by element (slices are not comparable with ==)
+	if c.typ == Array {
+		array1 := c.AsArray()
+		array2 := obj.AsArray()
+		if len(array1) != len(array2) {
+			return false
+		}
+		for index := range array1 {
+			element1 := array1[index]
+			element2 := array2[index]
+			if element1 == element2 {
+				continue
+			}
+			if element1 == nil || !element1.Equals(element2) {
+				return false
+			}
+		}
+		return true
+	}
+	// Values of other non-comparable types are never equal
+	if !reflect.TypeOf(value1).Comparable() || !reflect.TypeOf(value2).Comparable() {
+		return false
+	}
+	return value1 == value2
 }
 
 // Clone the variant value
